@@ -71,6 +71,10 @@ func (cc *ConsulSource) GetNextUInt32(key string) (value uint32, err error) {
 	}
 	value = uint32(value64)
 	value++
+	if value == 0 {
+		err = errors.New("cannot increment key: uint32 counter exhausted")
+		return
+	}
 	kvp.Value = []byte(strconv.FormatUint(uint64(value), 10))
 	var ok bool
 	ok, _, err = cc.kv.CAS(kvp, nil) // Check-And-Set call, relies on ModifyIndex in KVPair
